@@ -73,7 +73,7 @@ def run_one(funcs, o, tier):
         if check[0] == "held_during":
             inside = [y for y in check[3] if counts.get(y, 0) > 0]
             names = [check[1]] + (check[3][:1] if not inside else [])
-        missing = [x for x in names if x in counts and counts[x] == 0]
+        missing = [x for x in names if x in counts and counts[x] == 0 and x not in spec.get("absent_ok_events", [])]
         if missing and check[0] != "never":
             verdict = "inconclusive"; reason = "event pattern(s) %s match nothing reachable from %s" % (missing, roots[0])
             cd["result"] = "stale"
